@@ -212,6 +212,14 @@ func (u *Unit) libraryCall(c *ast.CallExpr, fun ast.Expr, env *Env) ([]Outcome, 
 		v := argv(0)
 		k := u.rkind(v.Term)
 		return ret(env, Value{Ite(Same(k, IntLit(kPtr)), u.relem(env, v.Term), v.Term), u.Info.TypeOf(c)}), true
+	case "reflect.Value.String":
+		// the underlying string of a string-kinded value; some description of the value otherwise (never panics)
+		u.useReflect = true
+		v := recvv()
+		_, un := u.boxFn(SStr)
+		other := u.D.Fresh("rvstring", SStr)
+		u.D.Trust("reflect: Value.String returns the underlying string when Kind is String")
+		return ret(env, Value{Ite(Same(u.rkind(v.Term), IntLit(24)), App(un, SStr, v.Term), other), types.Typ[types.String]}), true
 	case "reflect.Value.Type":
 		u.useReflect = true
 		v := recvv()
